@@ -99,6 +99,9 @@ namespace chaiscript {
         case utility::hash("+="): {
           return Opers::assign_sum;
         }
+        case utility::hash("/="): {
+          return Opers::assign_quotient;
+        }
         case utility::hash("-="): {
           return Opers::assign_difference;
         }
